@@ -33,7 +33,15 @@ func ValidateAnnotations(annotations map[string]string, path string) error {
 	errs := []error{}
 	for k := range annotations {
 		// The rule is QualifiedName except that case doesn't matter, so convert to lowercase before checking.
-		for _, msg := range IsQualifiedName(strings.ToLower(k)) {
+		// Only ASCII letters are folded: strings.ToLower maps some non-ASCII characters
+		// (for instance the Kelvin sign U+212A) to ASCII letters, which would make them pass.
+		lower := strings.Map(func(r rune) rune {
+			if 'A' <= r && r <= 'Z' {
+				return r + ('a' - 'A')
+			}
+			return r
+		}, k)
+		for _, msg := range IsQualifiedName(lower) {
 			errs = append(errs, fmt.Errorf("%v.%v is invalid: %v", path, k, msg))
 		}
 	}
